@@ -67,6 +67,9 @@ pub struct Panicked {
 impl Panicked {
     /// did the panic originate in harness code (checks/ or vlib/) rather than in bnum / core?
     pub fn in_harness(&self) -> bool {
+        if self.msg.starts_with("SAMPLER-STUCK") {
+            return false; // raised by ScriptRng on behalf of the code under test: a sampler that never returns
+        }
         self.at.starts_with("checks/") || self.at.starts_with("vlib/") || self.at.contains("/verif/harness/")
     }
 }
